@@ -1,15 +1,30 @@
+from vlib.core import Query
 from checks import pipeseq as ps
+
+DUP_OPN = {0: "set_flow_def(block.)", 1: "set_flow_def(block.other.)", 2: "input", 3: "new output sub-pipe 0 -> S0", 4: "new output sub-pipe 1 -> S1",
+           5: "release sub-pipe 0", 6: "release sub-pipe 1", 7: "set_output(main, S2)", 8: "set_output(main, NULL)"}
+
+
+def dup_query(ops, timeout, sample=False, replay=False):
+    return Query(name="dup_" + "-".join(map(str, ops)), harness="C05_dup.c",
+                 defines=["OPS=" + ",".join(map(str, ops)), "WITNESS_DELIVERED=0", "VERIF_POOL_NO_MGR_REF"], shims=ps.SHIMS,
+                 unwind=max(10, len(ops) + 3), unwindset=[u for u in ps.UW if not u.startswith(("env_count", "probe_check"))] + ["order.0:62"],
+                 fp_restrict=True, timeout=timeout, leak=True, replay_witness=replay,
+                 sample={"pipe": "dup (main output + 2 output sub-pipes, 3 sinks)", "operations": [DUP_OPN[o] for o in ops] + ["release"],
+                         "symbolic": "payload octets"} if sample else None)
 
 CLAIM = {
     "text": "Bounded model checking of real one-to-one pipes (idem, skip, htons, setattr, setflowdef, probe_uref, delay, match_attr) and "
-            "the null sink, plus a buffering pipe assembled in the harness from the real upipe_helper_input.h / upipe_helper_output.h macros (hold while the downstream is blocked, held buffers first and in arrival order once unblocked, freed on flush / release), under every listed interleaving of several inputs with control operations (output switched, disconnected, "
+            "the null sink, the duplicating split upipe_dup, plus a buffering pipe assembled in the harness from the real upipe_helper_input.h / upipe_helper_output.h macros (hold while the downstream is blocked, held buffers first and in arrival order once unblocked, freed on flush / release), under every listed interleaving of several inputs with control operations (output switched, disconnected, "
             "reconnected; sink starting/stopping to refuse the flow definition; flush; release). Online monitors at the recording sinks: "
             "every delivered buffer is one of the buffers handed to the pipe, not delivered before, in input order (no duplication, "
             "invention or reordering), delivered only to the connected output; its payload (3 symbolic octets) is unchanged but for the "
             "documented transformation (skip: configured prefix removed; htons: 16-bit words swapped); whatever is not forwarded is freed "
             "by the pipe (CBMC memory-leak check on every query) and nothing is freed twice or used after free (CBMC pointer checks).",
     "note": "Trusted: as C04. Bounds: up to 4 buffers per history, histories of 5-6 operations, single-segment 3-octet buffers. "
-            "Not covered: upipe_dup (sub-pipes), upipe_queue_sink itself, chains of several pipes, "
+            "The duplicating split upipe_dup runs in harness/C05_dup.c (main output + two output sub-pipes created / released in "
+            "mid-stream, three sinks): every input reaches every output that exists at that moment, in order, once, payload unchanged, after "
+            "the current flow definition. The queue sink is covered by C06. Not covered: chains of several pipes, "
             "attribute preservation (the dictionary is forwarded as the same object; its content is C10's subject).",
     "technique": "CBMC bounded model checking of real C pipes with online conservation/order monitors and memory-leak check; complete "
                  "enumeration of operation sequences within the stated alphabet/length, symbolic payloads",
@@ -39,14 +54,23 @@ def build(tier):
         for i, ops in enumerate(sq):
             qs.append(ps.query("C05", pipe, ops, timeout=280 if quick else 900, sample=(i % 40 == 7), replay=(i % 50 == 7),
                                witness_delivered=0))
+    # the duplicating split upipe_dup: outputs added / removed in mid-stream, main output set / removed, definition changed
+    if quick:
+        dq = [[0, 3, 2] + t for t in ps.seqs([1, 2, 4, 5, 7, 8], 3, last=(2,))][::2] + \
+             [[0, 3, 4, 2, 2], [3, 0, 2, 7, 2, 5, 2, 1, 2, 4, 2], [0, 7, 2, 8, 2, 3, 2, 6], [3, 4, 2, 0, 2], [7, 3, 0, 2, 4, 2, 6, 2, 8, 2]]
+    else:
+        dq = [[0, 3, 2] + t for t in ps.seqs([1, 2, 4, 5, 6, 7, 8], 4, last=(2,))] + [[3, 4, 7] + t for t in ps.seqs([0, 1, 2, 5, 8], 3, last=(2,), must=(0,))] + \
+             [[0, 3, 4, 2, 2], [3, 0, 2, 7, 2, 5, 2, 1, 2, 4, 2], [0, 7, 2, 8, 2, 3, 2, 6], [3, 4, 2, 0, 2], [7, 3, 0, 2, 4, 2, 6, 2, 8, 2]]
+    for i, ops in enumerate(dq):
+        qs.append(dup_query(ops, 280 if quick else 900, sample=(i == 1), replay=(i % 15 == 1)))
     seen = set()
     qs = [q for q in qs if not (q.name in seen or seen.add(q.name))]
-    meta = {"bounds": {"pipes": sorted({ps.PIPES[p] for p, _ in plan}), "sequence_length": "2 (connect) + 4", "sequences": len(qs),
+    meta = {"bounds": {"pipes": sorted({ps.PIPES[p] for p, _ in plan} | {"dup (split)"}), "sequence_length": "2 (connect) + 4", "sequences": len(qs),
                        "buffers_per_history": "2..4", "buffer_octets": 3},
             "exhaustive": True,
             "rule": "every interleaving of the stated length over the stated alphabet with at least two inputs is one query",
             "assumptions": ps.COMMON_ASSUME + ["buffers dropped because no accepting output is connected are not 'lost' (documented behaviour of the output helper); "
                                                "they must be freed (leak check) and may not be delivered later"],
-            "outside": ["upipe_dup and other split pipes", "the queue sink itself (its use of the hold helper is covered through the helper-built pipe)", "chains of pipes",
+            "outside": ["split pipes other than upipe_dup", "chains of pipes",
                         "segmented payloads"]}
     return qs, meta
